@@ -38,6 +38,8 @@ class Builder:
         fname = spec.get('f') or f'{owner}.{name}'
         if 'const' in spec:
             self.world.consts[fname] = _to_py(spec['const'])
+        if 'table' in spec:
+            self.world.tables[fname] = {tuple(_to_py(k)): _to_py(v) for k, v in spec['table']}
         f = self.world.fn(fname, impure=bool(spec.get('impure')), params=list(spec.get('args', [])))
         return f
 
@@ -115,7 +117,7 @@ class Builder:
         if k == 'columns':
             return self._columns(d)
         if k == 'filter':
-            return c.Filter(self.world.fn(d['f'], params=list(d['args'])))
+            return c.Filter(self.fn(d, 'filter', d['f']))
         if k == 'keep':
             return c.Filter.keep(d['ids'])
         if k == 'drop':
@@ -126,7 +128,7 @@ class Builder:
         if k == 'groupby':
             by = d['by']
             if isinstance(by, dict):
-                by = self.world.fn(by['f'], params=list(by['args']))
+                by = self.fn(by, 'groupby', by['f'])
             return c.GroupBy(by)
         if k == 'merge':
             return c.Merge(*[self.layer(p) for p in d['parts']])
